@@ -30,7 +30,7 @@ def _verify_one(task):
     key, strict = task
     c = REG.contracts[key]
     tier = os.environ.get('VERIF_TIER', 'quick')
-    tmo = 10000 if tier == 'quick' else 60000
+    tmo = 20000 if tier == 'quick' else 60000
     try:
         r = verify_contract(REG, c, timeout_ms=tmo, strict=strict)
     except Exception as ex:  # engine crash
@@ -163,6 +163,21 @@ def run_property(pid, tier='quick', seed=0, jobs=16, verbose=False):
                           obligations=len(r['obligations']), time_s=r['time']))
         if r['error']:
             errors.append(f"{r['key']}: {r['error']}")
+        if r['unsupported'] and not r['strict']:
+            # outside the verified subset: decide nothing, but let the bounded native search look
+            fails, tried = replay_refutation(REG, c, f'{c.short}::unsupported', None, pid, known,
+                                             strict=r['strict'])
+            if fails:
+                rp = os.path.join(ROOT, 'replays', pid, _safe(c.short + '_unsupported') + '.json')
+                json.dump(dict(property=pid, obligation=f'{c.short}::(function outside the verified subset)',
+                               function=r['key'], file=r['file'], unsupported=r['unsupported'],
+                               note='no obligation could be generated; failing input found by the '
+                                    'bounded native search of the replay hook',
+                               replay_candidates_tried=tried,
+                               failing_inputs=[dict(input=d, failed=rs['failed'], detail=rs.get('detail', ''))
+                                               for d, rs in fails[:20]]),
+                          open(rp, 'w'), indent=1, default=str)
+                violations.append((f'{c.short}::contract (native bounded search)', rp, False))
         for u in r['unsupported']:
             undecided.append(f"{r['key']}: unsupported: {u}")
         for n, o in r['obligations'].items():
@@ -175,7 +190,26 @@ def run_property(pid, tier='quick', seed=0, jobs=16, verbose=False):
                     samples.append(dict(obligation=n, verdict='proved', paths=o['paths'],
                                         backend=o['backend'], time_s=o['time']))
             elif o['verdict'] == 'unknown':
-                undecided.append(f"{r['key']}: {n}: solver returned unknown (line {o['line']})")
+                # the solver could neither prove nor refute (typically: quantified path
+                # condition, no model).  Search the small native scope of the replay hook:
+                # only a failing input of the REAL code turns this into a violation.
+                fails, tried = replay_refutation(REG, c, n, None, pid, known, strict=r['strict'])
+                kf = [k for k in known if k.get('obligation') == n]
+                if fails and not all(any(_covers(k, d, rs) for k in kf) for d, rs in fails):
+                    rp = os.path.join(ROOT, 'replays', pid, _safe(n) + '.json')
+                    json.dump(dict(property=pid, obligation=n, function=r['key'], file=r['file'],
+                                   line=o['line'], verifier='pyvc/z3', solver_verdict='unknown',
+                                   note='obligation not discharged; failing input found by the '
+                                        'bounded native search of the replay hook',
+                                   replay_candidates_tried=tried,
+                                   failing_inputs=[dict(input=d, failed=rs['failed'],
+                                                        detail=rs.get('detail', '')) for d, rs in fails[:20]]),
+                              open(rp, 'w'), indent=1, default=str)
+                    violations.append((n, rp, False))
+                else:
+                    undecided.append(f"{r['key']}: {n}: solver returned unknown (line {o['line']})"
+                                     + (f'; bounded native search of {tried} inputs found no failure'
+                                        if tried else ''))
             else:
                 fails, tried = replay_refutation(REG, c, n, o['model'], pid, known, strict=r['strict'])
                 kf = [k for k in known if k.get('obligation') == n]
